@@ -12,6 +12,7 @@ import (
 	"io"
 	"strconv"
 	"strings"
+	"sync/atomic"
 	"time"
 
 	"github.com/cloudwego/eino/compose"
@@ -27,6 +28,46 @@ type FSrc struct {
 
 type FwdSpec struct {
 	Srcs []FSrc `json:"srcs"`
+	// Slow: the reader of the merged stream is behind its producers.  1 = it starts to read only when
+	// the forwarding goroutines have run as far ahead as their buffers let them (or have met their
+	// panic); 2 = the same, and it pauses again after every third item.  What it must find is the same
+	// as for a reader that keeps up: the timing of the reader is not an input of the model.
+	Slow int `json:"slow,omitempty"`
+}
+
+// progress of the convert functions of a case's sources (one counter per source): how far the
+// goroutines that read them have come.  Only used to let a slow reader wait for its producers.
+type fwdProgress struct{ n []*int32 }
+
+func (p *fwdProgress) counter() *int32 {
+	c := new(int32)
+	p.n = append(p.n, c)
+	return c
+}
+
+func (p *fwdProgress) sum() int32 {
+	var t int32
+	for _, c := range p.n {
+		t += atomic.LoadInt32(c)
+	}
+	return t
+}
+
+// settle waits until no convert function has been called for a few milliseconds (the producers are
+// parked on full buffers, finished, or recovering from their panic), at most 150 ms, then a little
+// longer for the deferred handlers.  Waiting too short only makes the reader less slow.
+func (p *fwdProgress) settle() {
+	deadline := time.Now().Add(150 * time.Millisecond)
+	last, since := p.sum(), time.Now()
+	for time.Now().Before(deadline) {
+		time.Sleep(300 * time.Microsecond)
+		if s := p.sum(); s != last {
+			last, since = s, time.Now()
+		} else if time.Since(since) > 3*time.Millisecond {
+			break
+		}
+	}
+	time.Sleep(2 * time.Millisecond)
 }
 
 type FItem struct {
@@ -41,12 +82,13 @@ type FObs struct {
 
 func fid(j, k int) int { return j*100 + k }
 
-func convSource(j int, elems []string) *schema.StreamReader[int] {
+func convSource(j int, elems []string, prog *int32) *schema.StreamReader[int] {
 	idx := make([]int, len(elems))
 	for k := range idx {
 		idx[k] = k
 	}
 	return schema.StreamReaderWithConvert(schema.StreamReaderFromArray(idx), func(k int) (int, error) {
+		atomic.AddInt32(prog, 1)
 		switch elems[k] {
 		case "item":
 			return 0, &custom0{fid(j, k)}
@@ -61,7 +103,7 @@ func convSource(j int, elems []string) *schema.StreamReader[int] {
 
 // members builds the readers handed to MergeStreamReaders and, per member, the source elements
 // with the member index used for its ids.
-func (f *FwdSpec) members() ([]*schema.StreamReader[int], []*schema.StreamReader[int]) {
+func (f *FwdSpec) members(prog *fwdProgress) ([]*schema.StreamReader[int], []*schema.StreamReader[int]) {
 	var srs, unread []*schema.StreamReader[int]
 	var elems [][]string
 	var ids []int
@@ -69,14 +111,14 @@ func (f *FwdSpec) members() ([]*schema.StreamReader[int], []*schema.StreamReader
 		j := len(srs)
 		switch s.Kind {
 		case "conv":
-			srs = append(srs, convSource(j, s.Elems))
+			srs = append(srs, convSource(j, s.Elems, prog.counter()))
 			elems, ids = append(elems, s.Elems), append(ids, j)
 		case "copy":
-			cs := convSource(j, s.Elems).Copy(2)
+			cs := convSource(j, s.Elems, prog.counter()).Copy(2)
 			srs = append(srs, cs...)
 			elems, ids = append(elems, s.Elems, s.Elems), append(ids, j, j)
 		case "copy1":
-			cs := convSource(j, s.Elems).Copy(2)
+			cs := convSource(j, s.Elems, prog.counter()).Copy(2)
 			srs = append(srs, cs[0])
 			unread = append(unread, cs[1])
 			elems, ids = append(elems, s.Elems), append(ids, j)
@@ -132,7 +174,8 @@ func classifyItem(err error) string {
 }
 
 func runFwd(c *Case) Obs {
-	srs, unread := c.Fwd.members()
+	prog := &fwdProgress{}
+	srs, unread := c.Fwd.members(prog)
 	type res struct {
 		out []FItem
 		pan any
@@ -148,7 +191,13 @@ func runFwd(c *Case) Obs {
 					u.Close()
 				}
 			}()
+			if c.Fwd.Slow > 0 {
+				prog.settle()
+			}
 			for n := 0; n < 10000; n++ { // a stream that never ends is a hang, not an out-of-memory
+				if c.Fwd.Slow == 2 && n > 0 && n%3 == 0 {
+					prog.settle()
+				}
 				v, err := m.Recv()
 				if err == io.EOF {
 					return
@@ -186,7 +235,7 @@ func expectedMember(j int, elems []string) []FItem {
 		case "item":
 			out = append(out, FItem{E: "c:" + strconv.Itoa(fid(j, k))})
 		case "boom":
-			return append(out, FItem{E: "p:" + strconv.Itoa(fid(j, k))})
+			return append(out, FItem{E: "p:" + strconv.Itoa(pay(fid(j, k)))})
 		}
 	}
 	return out
@@ -276,7 +325,7 @@ func fwdCaseCoq(c *Case, o *Obs) string {
 			case "skip":
 				es = append(es, "SSkip")
 			case "boom":
-				es = append(es, lib.CoqApp("SBoom", lib.CoqN(uint64(fid(ids[m], k)))))
+				es = append(es, lib.CoqApp("SBoom", lib.CoqN(uint64(pay(fid(ids[m], k))))))
 			default:
 				panic("harness: bad element " + e)
 			}
@@ -327,6 +376,22 @@ func fwdTags(c *Case, o *Obs) []string {
 	for _, s := range c.Fwd.Srcs {
 		t = append(t, "fwd-has:"+s.Kind)
 	}
+	t = append(t, fmt.Sprintf("fwd-slow-reader:%d", c.Fwd.Slow))
+	late := false
+	for _, es := range elems {
+		ahead := 0
+		for _, e := range es {
+			if e == "boom" && ahead >= 5 {
+				late = true
+			}
+			if e == "val" || e == "item" {
+				ahead++
+			}
+		}
+	}
+	if late {
+		t = append(t, "fwd-has:panic-beyond-buffer")
+	}
 	if items > 0 {
 		t = append(t, "fwd-has:error-item")
 	}
@@ -340,13 +405,26 @@ func (g *gen) fwdCase() *Case {
 	if r.Chance(5, 100) {
 		m = 1
 	}
+	// a third of the cases have a reader that is behind its producers; their sources are mostly longer
+	// than a forwarder's buffer, with the panic late
+	if r.Chance(33, 100) {
+		f.Slow = 1 + g.weighted(60, 40)
+	}
 	for len(f.Srcs) < m {
 		s := FSrc{Kind: []string{"conv", "pipe", "array", "copy", "copy1"}[g.weighted(45, 15, 8, 12, 20)]}
 		n := r.Range(0, 6)
+		long := f.Slow > 0 && r.Chance(70, 100)
+		if long {
+			n = r.Range(6, 12)
+		}
 		for k := 0; k < n; k++ {
 			var e string
 			switch s.Kind {
 			case "conv", "copy1", "copy": // (every copy of a panicking source delivers the panic as an error item: F-C13d)
+				if long {
+					e = []string{"val", "item", "skip", "boom"}[g.weighted(70, 12, 8, 10)]
+					break
+				}
 				e = []string{"val", "item", "skip", "boom"}[g.weighted(58, 14, 10, 18)]
 			case "pipe":
 				e = []string{"val", "item"}[g.weighted(80, 20)]
